@@ -616,10 +616,27 @@ def rule_accum(c: Ctx) -> RuleResult:
             if why and isinstance(x.func.value, ast.Name):
                 # the delimiter row (line start + 1) holds only | - : and blanks - the scan in front of it rejects anything else,
                 # so no backslash can occur in it
-                rds = list(Reaching(c.cfg(f)).at_ast(x, x.func.value.id))
-                if rds and all(d.kind == "assign" and isinstance(d.value, ast.Call) and U(d.value.func).split(".")[-1] == "getLine" and len(d.value.args) == 2
-                               and isinstance(d.value.args[1], ast.BinOp) and isinstance(d.value.args[1].op, ast.Add)
-                               and isinstance(d.value.args[1].right, ast.Constant) and d.value.args[1].right.value == 1 for d in rds):
+                def delim_row(g: Func, name: str, at: ast.AST, depth: int = 0) -> bool:
+                    """every definition of `name` reaching `at` is `getLine(<start> + 1)` - directly, through a copy, or as the
+                    argument every call site of the private helper g passes for it"""
+                    rds = list(Reaching(c.cfg(g)).at_ast(at, name))
+                    if not rds or depth > 2:
+                        return False
+                    for d in rds:
+                        if d.kind == "assign" and isinstance(d.value, ast.Call) and U(d.value.func).split(".")[-1] == "getLine" and len(d.value.args) == 2 \
+                                and isinstance(d.value.args[1], ast.BinOp) and isinstance(d.value.args[1].op, ast.Add) \
+                                and isinstance(d.value.args[1].right, ast.Constant) and d.value.args[1].right.value == 1:
+                            continue
+                        if d.kind == "assign" and isinstance(d.value, ast.Name) and delim_row(g, d.value.id, d.stmt, depth + 1):
+                            continue
+                        if d.kind == "param" and c.internal_helper(g):
+                            from ..interproc import actuals
+                            acts = actuals(c, g, name)
+                            if acts and all(isinstance(a_, ast.Name) and delim_row(caller, a_.id, cs_.node, depth + 1) for (caller, a_, cs_) in acts):
+                                continue
+                        return False
+                    return True
+                if delim_row(f, x.func.value.id, x):
                     r.add(f"{f.short}|pipe-op|delimiter-row", c.where(f, x), f.short, U(x)[:70], "discharged",
                           "the delimiter row consists of | - : and blanks only (validated character by character before): no escape can occur")
                     why = ""
